@@ -28,6 +28,21 @@ fn main() {
     if args.len() < 2 { eprintln!("usage: yv-harness <property> [--tier t] [--seed n] [--out f]"); std::process::exit(2); }
     let prop = args[1].clone();
     if prop == "decode-worker" { codec::worker_main(); return; }
+    if prop == "sticky-probe" {
+        use yrs::{Text, Transact, IndexedSequence, Assoc, GetString};
+        for bytes in [false, true] {
+            let doc = sim::mk_doc(1, sim::DocCfg { bytes_offsets: bytes, ..sim::DocCfg::default() });
+            let t = doc.get_or_insert_text("t");
+            t.insert(&mut doc.transact_mut(), 0, "éab中c");
+            let txn = doc.transact();
+            println!("bytes={} text={:?} len={}", bytes, t.get_string(&txn), t.len(&txn));
+            for idx in (if bytes { vec![0u32, 2, 3, 4, 7, 8] } else { (0..=5u32).collect::<Vec<_>>() }) { for assoc in [Assoc::After, Assoc::Before] {
+                let st = t.sticky_index(&txn, idx, assoc);
+                println!("  idx {} {:?}: id={:?} offset={:?}", idx, assoc, st.as_ref().and_then(|s| s.id().cloned()), st.as_ref().and_then(|s| s.get_offset(&txn)).map(|o| o.index));
+            } }
+        }
+        return;
+    }
     if prop == "dump-apply" {
         // debugging aid: apply a v1 update (hex) to a fresh document and print what the checks look at
         let d = sim::Replica::new(9, sim::DocCfg::default());
